@@ -465,3 +465,27 @@ func scribbleGeom(r *fw.Rand, t geom.T, depth int) {
 		}
 	}
 }
+
+// hugeFloats draws a length (in ordinates, a multiple of stride) on or next to
+// the sizes at which block-wise code switches: multiples of 65536 up to
+// 18*65536 (so 2^16, 2^17, 2^18 and 2^20 are among them), exactly, one
+// coordinate more or less, or a few coordinates off.
+func hugeFloats(r *fw.Rand, stride int) int {
+	n := 65536 * r.Range(1, 18)
+	if r.Chance(1, 2) {
+		n = 65536 * []int{1, 2, 4, 8, 16, 17, 17, 18, 20}[r.Intn(9)]
+	}
+	switch r.Intn(6) {
+	case 0:
+		n += stride
+	case 1:
+		n -= stride
+	case 2:
+		n += stride * r.Range(-40, 40)
+	}
+	n -= n % stride
+	if n < stride {
+		n = stride
+	}
+	return n
+}
